@@ -2,7 +2,7 @@ THEOREMS = ["Lbfgsb.C03.ls_strict_decrease", "Lbfgsb.C03.failed_ls_keeps_x", "Lb
 MODULES = ["LbfgsbVerif.Props.C03"]
 MONITORS = ["C03", "C02"]
 N_QUICK, N_THOROUGH = 1200, 12000
-COMMON = {"small_budgets": True, "families": ["qp", "qp_quartic", "rosen", "osc", "styb", "badscale", "steep", "steep", "bench"]}
+COMMON = {"chain_frac": 0.2, "small_budgets": True, "families": ["qp", "qp_quartic", "rosen", "osc", "styb", "badscale", "steep", "steep", "bench"]}
 ASSUMPTIONS = ["objectives finite-valued on the box (no NaN)", "fixed objective (no update_fun_def)"]
 RULE = ("random runs with maxls in 1..20 and maxfun from 1 (budget exhausted mid-search), convex / non-convex / badly scaled "
         "families; sequence f(x0), callback states' fun, result fun checked non-increasing; non-trivial = at least one iteration")
@@ -12,5 +12,5 @@ def features(r):
     return {"jac": r.choice(["callable"] * 4 + ["2-point"]),
             "callback": r.choice(["false", "false", "stop"]),
             "ftarget": r.choice(["none", "none", "float"]), "gtol_callable": False,
-            "scaler": r.choice(["none", "none", "const"]),
+            "scaler": r.choice(["none", "none", "const", "packaged"]),
             "update": "none"}
